@@ -61,6 +61,7 @@ class Exec(ExprMixin, CallMixin):
         self.used_anchors = set()
         self.assumed_lemmas = set()
         self.entry_axioms = []
+        self.desugared = {}
 
     # ------------------------------------------------------------------ field typing
     def field_info(self, cls, field):
@@ -139,7 +140,7 @@ class Exec(ExprMixin, CallMixin):
         for n in ast.walk(fi.node):
             pass
         for n in self._loops_in_order(fi.node):
-            self.loop_ord[id(n)] = k
+            self.loop_ord[n if isinstance(n, tuple) else id(n)] = k
             k += 1
         self.nloops = k
         # parameters
@@ -224,11 +225,25 @@ class Exec(ExprMixin, CallMixin):
         self.cover = {"exits": 1, "reachable": 1, "unknown": 0}
         return self.obligations
 
+    def synthetic_loop_ordinal(self, stmt):
+        return self.loop_ord.get(("synthetic", stmt.lineno))
+
+    @staticmethod
+    def is_extend_genexp(s):
+        v = getattr(s, "value", None)
+        return (
+            isinstance(s, ast.Expr) and isinstance(v, ast.Call) and isinstance(v.func, ast.Attribute) and v.func.attr == "extend"
+            and len(v.args) == 1 and isinstance(v.args[0], ast.GeneratorExp)
+        )
+
     def _loops_in_order(self, fnode):
         out = []
 
         def go(stmts):
             for s in stmts:
+                if self.is_extend_genexp(s):
+                    out.append(("synthetic", s.lineno))
+                    continue
                 if isinstance(s, (ast.For, ast.While)):
                     out.append(s)
                     go(s.body)
@@ -395,6 +410,33 @@ class Exec(ExprMixin, CallMixin):
             return [(st, NORMAL)]  # docstring
         if isinstance(s.value, (ast.Yield, ast.YieldFrom)):
             return self.do_yield(s.value, st)
+        v = s.value
+        if (
+            isinstance(v, ast.Call)
+            and isinstance(v.func, ast.Attribute)
+            and v.func.attr == "extend"
+            and len(v.args) == 1
+            and isinstance(v.args[0], ast.GeneratorExp)
+            and len(v.args[0].generators) == 1
+        ):
+            # L.extend(e for x in it if c): CPython consumes the generator lazily, i.e. it runs the loop
+            #     for x in it:  if c:  L.append(e)
+            # (the condition sees elements appended earlier in the same call).  Desugared and verified as that loop.
+            key = ("extend", s.lineno)
+            loop = self.desugared.get(key)
+            if loop is None:
+                g = v.args[0].generators[0]
+                app = ast.Expr(ast.Call(func=ast.Attribute(value=v.func.value, attr="append", ctx=ast.Load()), args=[v.args[0].elt], keywords=[]))
+                body = [app]
+                for c in reversed(g.ifs):
+                    body = [ast.If(test=c, body=body, orelse=[])]
+                loop = ast.For(target=g.target, iter=g.iter, body=body, orelse=[])
+                ast.copy_location(loop, s)
+                ast.fix_missing_locations(loop)
+                self.desugared[key] = loop
+                # the synthetic loop takes the next free loop ordinal of the function being executed
+                self.loop_ord[id(loop)] = self.synthetic_loop_ordinal(s)
+            return self.exec_stmt(loop, st)
         self.eval(s.value, st)
         self.lemmas_at(s, st)
         return [(st, NORMAL)]
